@@ -363,12 +363,12 @@ def finish_trace_tlc(h, timeout):
     m = re.findall(r"(\d[\d,]*) states generated, ", text)
     res["lines"] = int(m[-1].replace(",", "")) if m else 0
     if h["mode"] == "mon":
-        m = re.search(r'^<<"VIOL", "(.*)">>$', text, re.M)
+        m = re.search(r'^<<\s*"VIOL",\s*"(.*)"\s*>>$', text, re.M)   # (tolerates TLC's wrapped tuple layout)
         if not m or "MONITOR-STUCK" in text or "Model checking completed" not in text:
             raise ToolError("Monitor did not consume the whole trace %s (see %s)" % (h["trace"], h["out"]))
         res["viol"] = json.loads(m.group(1).replace('\\"', '"'))
     else:
-        m = re.search(r'^<<"UNMATCHED", (\d+), "(.*)">>$', text, re.M)
+        m = re.search(r'^<<\s*"UNMATCHED",\s*(\d+),\s*"(.*)"\s*>>$', text, re.M)
         if m:
             res["unmatched_line"] = int(m.group(1))
             res["accepted"] = False
@@ -1042,7 +1042,7 @@ def run_scale(binp, wd, tier, prop="C15"):
     env = {"TRACE": outp, "SCALEPROP": prop, "JAVA_TOOL_OPTIONS": JAVA_OPTS}
     rc, out, dt = sh(["tlc", "-workers", "1", "-metadir", os.path.join(wd, "scale_meta"), "-cleanup", "-noGenerateSpecTE",
                       "-config", "ScaleCheck.cfg", "ScaleCheck.tla"], 600, cwd=SPEC, env=env)
-    m = re.search(r'^<<"SCALE-BAD", "(.*)">>$', out, re.M)
+    m = re.search(r'<<\s*"SCALE-BAD",\s*"(.*?)"\s*>>', out, re.S)   # (TLC wraps long tuples)
     if not m or "Model checking completed" not in out:
         raise ToolError("ScaleCheck did not complete: %s" % out[-600:])
     badidx = json.loads(m.group(1))
